@@ -52,8 +52,7 @@ impl Caught {
     pub fn sig(&self) -> String {
         match self {
             Caught::Panic { loc, .. } => {
-                let loc = loc.strip_prefix("/repo/").unwrap_or(loc);
-                format!("panic@{loc}")
+                format!("panic@{}", relative_loc(loc))
             }
             Caught::Abort(why) => format!("abort:{why}"),
         }
@@ -77,6 +76,17 @@ pub fn guarded<T>(f: impl FnOnce() -> T) -> Result<T, Caught> {
             Err(Caught::Panic { msg, loc })
         }
     }
+}
+
+/// root of the SimpleSL checkout the harness was built against (/repo unless VERIF_REPO says otherwise)
+pub fn repo_root() -> String {
+    std::env::var("VERIF_REPO").unwrap_or_else(|_| "/repo".to_string())
+}
+
+/// a source location relative to the repository root (stable in signatures)
+pub fn relative_loc(loc: &str) -> String {
+    let root = format!("{}/", repo_root());
+    loc.strip_prefix(root.as_str()).or_else(|| loc.strip_prefix("/repo/")).unwrap_or(loc).to_string()
 }
 
 pub const FUEL: u64 = 200_000;
@@ -133,8 +143,7 @@ impl Outcome {
     pub fn panic_sig(&self) -> Option<String> {
         match self {
             Outcome::Panic { phase, loc, .. } => {
-                let loc = loc.strip_prefix("/repo/").unwrap_or(loc);
-                Some(format!("panic:{phase}@{loc}"))
+                Some(format!("panic:{phase}@{}", relative_loc(loc)))
             }
             _ => None,
         }
